@@ -2,8 +2,8 @@
 Layer B of C01/C13/C09, part 4: simulation of every abstract command and of command lists.
 
 `CapsFx dc rc` collects what the simulation needs to know about the terminal description: the *effect on the
-reference emulator* of the bytes rendered for each kind of command.  `Lemmas/LayerBXterm.lean` proves `CapsFx` for
-every description in the class `XtermLike`.  `Admit` is the side condition under which a command is simulated
+reference emulator* of the bytes rendered for each kind of command.  `Lemmas/LayerBXterm.lean` + `Lemmas/LayerBXtermFx.lean`
+prove `CapsFx` for every description in the class `XtermLike` (`xl_capsFx`).  `Admit` is the side condition under which a command is simulated
 (`Lemmas/LayerBAdmit.lean` proves it for every command the draw path emits over any history).
 -/
 import Tcell.Lemmas.LayerBSim
